@@ -12,6 +12,7 @@ import (
 	"github.com/onosproject/onos-config/internal/verifrt"
 	"github.com/openconfig/gnmi/proto/gnmi"
 	"github.com/openconfig/gnmi/proto/gnmi_ext"
+	"math"
 )
 
 const vNameAlpha = "a[]=/\\(*.kl"
@@ -51,6 +52,24 @@ func vGenElems(tag string, maxElems, nameLen int, withKey bool) []*gnmi.PathElem
 	return elems
 }
 
+// vModelElems: the elements of a node of the model of vRWPaths
+func vModelElems(i int) []*gnmi.PathElem {
+	k := map[string]string{"k": verifrt.NondetString("op.kval", 1, "1*")}
+	switch i {
+	case 0:
+		return []*gnmi.PathElem{{Name: "a"}, {Name: "b"}}
+	case 1:
+		return []*gnmi.PathElem{{Name: "a"}, {Name: "bc"}}
+	case 2:
+		return []*gnmi.PathElem{{Name: "l", Key: k}, {Name: "k"}}
+	case 3:
+		return []*gnmi.PathElem{{Name: "l", Key: k}, {Name: "x"}}
+	case 4:
+		return []*gnmi.PathElem{{Name: "l", Key: k}}
+	}
+	return []*gnmi.PathElem{{Name: "a"}}
+}
+
 // vGenPath: nil or a path with a symbolic target and generated elements
 func vGenPath(tag string, maxElems, nameLen int, withKey bool) *gnmi.Path {
 	if verifrt.NondetBool(tag + ".nil") {
@@ -59,10 +78,11 @@ func vGenPath(tag string, maxElems, nameLen int, withKey bool) *gnmi.Path {
 	return &gnmi.Path{Target: vGenTarget(tag + ".target"), Elem: vGenElems(tag, maxElems, nameLen, withKey)}
 }
 
-// vGenValue: nil, unset oneof, or one of the alternatives that need no number conversion (those are C17's subject)
+// vGenValue: nil, unset oneof, or any alternative of the oneof (what the numbers become is C17's subject; here only that
+// no alternative crashes the server whatever the model says about the leaf)
 func vGenValue(tag string) *gnmi.TypedValue {
 	k := verifrt.NondetInt(tag + ".kind")
-	verifrt.Assume(k >= 0 && k <= 8)
+	verifrt.Assume(k >= 0 && k <= 16)
 	s := verifrt.NondetString(tag+".str", 2, "1a*")
 	switch k {
 	case 0:
@@ -81,8 +101,57 @@ func vGenValue(tag string) *gnmi.TypedValue {
 		return &gnmi.TypedValue{Value: &gnmi.TypedValue_JsonIetfVal{JsonIetfVal: []byte("{}")}}
 	case 7:
 		return &gnmi.TypedValue{Value: &gnmi.TypedValue_BytesVal{BytesVal: []byte(s)}}
+	case 9:
+		return &gnmi.TypedValue{Value: &gnmi.TypedValue_IntVal{IntVal: verifrt.NondetInt64(tag + ".int")}}
+	case 10:
+		return &gnmi.TypedValue{Value: &gnmi.TypedValue_UintVal{UintVal: verifrt.NondetUint64(tag + ".uint")}}
+	case 11:
+		return &gnmi.TypedValue{Value: &gnmi.TypedValue_DecimalVal{DecimalVal: &gnmi.Decimal64{Digits: verifrt.NondetInt64(tag + ".digits"), Precision: vGenPrecision(tag)}}}
+	case 12:
+		return &gnmi.TypedValue{Value: &gnmi.TypedValue_FloatVal{FloatVal: vGenFloat(tag)}}
+	case 13:
+		return &gnmi.TypedValue{Value: &gnmi.TypedValue_LeaflistVal{LeaflistVal: &gnmi.ScalarArray{Element: []*gnmi.TypedValue{{Value: &gnmi.TypedValue_StringVal{StringVal: verifrt.NondetStringN(tag+".lstr", 1, "1a")}}}}}}
+	case 14:
+		return &gnmi.TypedValue{Value: &gnmi.TypedValue_LeaflistVal{LeaflistVal: &gnmi.ScalarArray{Element: []*gnmi.TypedValue{{Value: &gnmi.TypedValue_IntVal{IntVal: verifrt.NondetInt64(tag + ".int")}}, {}}}}}
+	case 15:
+		return &gnmi.TypedValue{Value: &gnmi.TypedValue_LeaflistVal{LeaflistVal: &gnmi.ScalarArray{}}}
+	case 16:
+		return &gnmi.TypedValue{Value: &gnmi.TypedValue_AnyVal{}}
 	}
 	return &gnmi.TypedValue{Value: &gnmi.TypedValue_ProtoBytes{ProtoBytes: []byte(s)}}
+}
+
+// vGenNumCase: floats are concrete in the engine and the decimal rendering loops over the precision, so both are concrete
+// cases (one case split for the two): precisions none / the valid extremes 1 and 18 / values no decimal64 has; floats
+// finite / the infinities / a NaN
+func vGenNumCase(tag string) int { return verifrt.Fork(tag+".numcase", 6) }
+
+func vGenPrecision(tag string) uint32 {
+	switch vGenNumCase(tag) {
+	case 0:
+		return 0
+	case 1:
+		return 1
+	case 2:
+		return 18
+	case 3:
+		return 19
+	case 4:
+		return 64
+	}
+	return 65
+}
+
+func vGenFloat(tag string) float32 {
+	switch vGenNumCase(tag) {
+	case 1:
+		return float32(math.Inf(1))
+	case 2:
+		return float32(math.Inf(-1))
+	case 3:
+		return float32(math.NaN())
+	}
+	return 1.5
 }
 
 // vNoSync: the harness does not generate the SYNCHRONOUS strategy (a synchronous Get waits in goroutines)
